@@ -24,7 +24,7 @@ PROPS = {
                         "round trip over all widths/indents is not enumerated; the token-level argument is layout-independent"],
     },
     "C15": {
-        "rules": [typing_rules.rule_zip, typing_rules.rule_dup, typing_rules.rule_nodup, typing_rules.rule_result, typing_rules.rule_clause_exits, typing_rules.rule_lookup, typing_rules.rule_checkall, typing_rules.rule_instance, typing_rules.rule_tyrule,
+        "rules": [typing_rules.rule_zip, typing_rules.rule_dup, typing_rules.rule_nodup, typing_rules.rule_result, typing_rules.rule_clause_exits, typing_rules.rule_lookup, typing_rules.rule_checkall, typing_rules.rule_instance, typing_rules.rule_tyrule, typing_rules.rule_tywf,
                   traversal.rule_trav(["fun::typing::check::Check"]), annot.rule_annot_check, panics.rule_panic(("A",))],
         "text": "Rejection discipline of the type checker, decided for every program: zips are length-guarded (R-ZIP), declarations are "
                 "inserted only after a duplicate check that returns Err (R-DUP), binder lists are checked for duplicates before use "
@@ -59,13 +59,16 @@ PROPS = {
                         "immediates of the memory-management sequences are compile-time constants (field offsets <= 64, stack offsets < 2048)"],
     },
     "C11": {
-        "rules": [pmoves.rule_pmoves, statements.rule_stmt_substitute, pmoves.rule_cycle, pmoves.rule_subst_order, codegen.rule_isel_mov_only],
+        "rules": [pmoves.rule_pmoves, statements.rule_stmt_substitute, pmoves.rule_cycle, pmoves.rule_subst_order, codegen.rule_isel_mov_only,
+                  memory.rule_mem("x86_64", only_refcount=True), memory.rule_mem("aarch64", only_refcount=True), memory.rule_mem("rv64", only_refcount=True)],
         "text": "Backend-specific pieces of the simultaneous-assignment scheme, decided per backend on folded emission lists run on the "
                 "symbolic machine: the value a cycle parks with store_temporary survives every kind of intermediate `mov` that can "
                 "occur while it is parked and reaches the restored temporary; the guard contains_spill_edge is folded over every "
                 "move tree with up to 4 nodes to determine when a spill-to-spill move (which clobbers the scratch register) can occur "
                 "with the flag unset; `mov` itself is validated for every placement pair; reference counts are updated before the "
-                "moves from the one transposed map and with the old context, 0/1/n targets map to erase/nothing/share(n-1).",
+                "moves from the one transposed map and with the old context, 0/1/n targets map to erase/nothing/share(n-1); "
+                "share_block_n and erase_block themselves - what a duplicated or dropped variable expands to - are validated for "
+                "temporaries in registers and in spill slots against the reference-counting scheme (R-MEMRC).",
         "assumptions": ["correctness of the spanning-forest algorithm for all assignment maps is not decided (enumeration or proof of an "
                         "algorithm over all graphs is another family)"],
     },
@@ -177,7 +180,7 @@ PROPS = {
     },
     "C12": {
         "rules": [panics.rule_panic(("B",)), annot.rule_annot_check, annot.rule_annot_freevars, shape.rule_shape,
-                  traversal.rule_trav(["fun::typing::check::Check"]), wiring.rule_wire_intra, hygiene.rule_fvscope, shrinking.rule_cutvar, traversal.rule_siblings, formatting.rule_nameprint],
+                  traversal.rule_trav(["fun::typing::check::Check"]), wiring.rule_wire_intra, hygiene.rule_fvscope, shrinking.rule_cutvar, traversal.rule_siblings, formatting.rule_nameprint, typing_rules.rule_tywf],
         "text": "'No internal failure' clause: every panic-capable site reachable from the post-check stage entry points is audited, "
                 "and the annotation/shape classes are discharged by checked rules rather than trusted: Check sets every annotation on "
                 "every Ok path and visits every subterm (R-ANNOT, R-TRAV), free-variable and closure-environment annotations are set "
@@ -195,14 +198,14 @@ PROPS = {
         "assumptions": ["behavioural equivalence itself is the conjunction of C02-C06, C13, C14, C20 and of semantic facts not decided statically"],
     },
     "C18": {
-        "rules": [panics.rule_panic(("A", "B")), panics.rule_gact, termination.rule_descent, termination.rule_loops, panics.rule_span],
+        "rules": [panics.rule_panic(("A", "B")), panics.rule_gact, termination.rule_descent, termination.rule_loops, panics.rule_span, hygiene.rule_fvscope, typing_rules.rule_tywf],
         "text": "Panic-site closure: every panic-capable construct reachable in the resolved whole-workspace call graph from the "
                 "parser, the type checker and every later stage entry point is enumerated and must be an audited row; zone A "
                 "(everything reachable from parse_module/parse_term/Program::check, including all 399 grammar actions) accepts "
                 "only locally discharged rows. Decides 'never panics on user input' for all inputs at once. Termination: R-DESCENT decides that "
                 "every recursion cycle of the pipeline's call graph is a structural descent (each recursive call receives a part of its "
                 "caller's input, or an audited renaming of one), so the recursion depth is bounded by the program; R-LOOP decides that every loop is left through the exhaustion of a finite "
-                "iterator or popped collection (three audited searches excepted). R-SPAN: diagnostic source spans are empty or given by token boundaries, never a constant number of bytes (miette panics when a label ends inside a multi-byte character).",
+                "iterator or popped collection (three audited searches excepted). R-SPAN: diagnostic source spans are empty or given by token boundaries, never a constant number of bytes (miette panics when a label ends inside a multi-byte character). Two invariants whose loss ends in a panic of a later stage are checked where they are established: free variables of unfocused Core are collected per binder scope (R-FVSCOPE; otherwise a lifted definition lacks a parameter and code generation fails with `Variable not found`), and a supplied type is checked for well-formedness before a term is checked against it (R-TYWF; otherwise shrinking fails with `Type not found`).",
         "assumptions": ["lalrpop's generated state machine and third-party crates do not panic",
                         "LOOKUP rows: checked programs are well-scoped (name lookups succeed)",
                         "stack overflow and allocation failure are outside the property ('within stack limits')"],
